@@ -601,6 +601,84 @@ def main():
             res.disagree("Gen.Catalogue.yaml row vs functions.yaml read by PyYAML in the harness", {"key": key}, gy, yflags[key])
     res.exhaustive_parts.append(f"pairing / reply flags / directions / YAML agreement on all {len(live)} classes and {len(yrows)} YAML rows")
 
+    # ------------------------------------------------------------ configurations: containers are independent of each other
+    # container A registers harness-defined classes for catalogued (s, f) pairs through the public `update()`; a fresh default
+    # container B, a container created afterwards, and a default settings object must still resolve ALL pairs to the catalogue
+    # classes and decode with them; the module-level catalogue list must be untouched.
+    import secsgem.secs.functions._all as allmod  # noqa: PLC0415
+    from secsgem.secs.functions.base import SecsStreamFunction  # noqa: PLC0415
+    snapshot = list(allmod.secs_streams_functions)
+    try:
+        cont_a = StreamsFunctions()
+        cont_b = StreamsFunctions()                     # exists before A is changed
+        picks = []
+        cand = [c for c in usable if c._data_format is not None]
+        for _ in range(3):
+            c = rng.choice(cand)
+            if c not in picks:
+                picks.append(c)
+        picks.append(fmod.SecsS01F01)                   # a header-only one as well
+        foreign = {}
+        for c in picks:
+            sub = type("Harness" + c.__name__, (SecsStreamFunction,), {
+                "_stream": c._stream, "_function": c._function, "_data_format": "< L < MDLN > < SOFTREV > >",
+                "_to_host": True, "_to_equipment": True, "_has_reply": False, "_is_reply_required": False, "_is_multi_block": False})
+            foreign[(c._stream, c._function)] = sub
+            cont_a.update(sub)
+        extra = type("HarnessS99F1", (SecsStreamFunction,), {"_stream": 99, "_function": 1, "_data_format": None})
+        cont_a.update(extra)                            # and a function the catalogue does not have
+        cont_c = StreamsFunctions()                     # created after A was changed
+        cont_s = secsgem.hsms.HsmsSettings().streams_functions
+        case = {"registered_in_A": sorted(f"S{k[0]}F{k[1]}" for k in foreign) + ["S99F1"]}
+        res.count(("containers", tuple(sorted(foreign))), sample={"op": "two containers, update() on one", **case})
+        # A really took the registrations (otherwise the oracle would be vacuous)
+        for k, sub in foreign.items():
+            if cont_a.function(*k) is not sub:
+                res.violate("c03-container-update", "update() of a container does not register the class", {**case, "key": k})
+        for cname, cont in (("default container created before the update", cont_b), ("default container created after the update", cont_c),
+                            ("streams_functions of a default HsmsSettings()", cont_s)):
+            for cls in classes:
+                k = (cls._stream, cls._function)
+                res.evaluations += 1
+                try:
+                    got = cont.function(*k)
+                except Exception as exc:  # noqa: BLE001
+                    got = exc
+                if got is not cls:
+                    res.violate("c03-container-shared", f"after update() on ANOTHER container, the {cname} no longer resolves S{k[0]}F{k[1]} to the catalogue class",
+                                {**case, "container": cname, "stream": k[0], "function": k[1]}, cls.__name__, getattr(got, "__name__", repr(got))[:120])
+            try:
+                leaked = cont.function(99, 1)
+            except Exception as exc:  # noqa: BLE001
+                leaked = exc
+            if leaked is not None:
+                res.violate("c03-container-shared", f"a function registered in another container is found in the {cname}", {**case, "container": cname, "stream": 99, "function": 1},
+                            None, getattr(leaked, "__name__", repr(leaked))[:120])
+            # decode a body built with the catalogue class through that container
+            for c in picks:
+                if c not in usable:
+                    continue
+                try:
+                    val = vg.node(c().data, "typed", [1, 2]) if c._data_format is not None else None
+                    obj = c(val)
+                    msg = secsgem.hsms.HsmsMessage(secsgem.hsms.HsmsStreamFunctionHeader(77, c._stream, c._function, False, 0), obj.encode())
+                    back = cont.decode(msg)
+                    ok = type(back) is c and same(back.get(), expected_after_wire(obj.data) if obj.data is not None else None)
+                    detail = type(back).__name__
+                except Exception as exc:  # noqa: BLE001
+                    ok, detail = False, f"{type(exc).__name__}: {str(exc)[:120]}"
+                res.evaluations += 1
+                if not ok:
+                    res.violate("c03-container-shared", f"after update() on ANOTHER container, the {cname} decodes S{c._stream}F{c._function} with a foreign class",
+                                {**case, "container": cname, "stream": c._stream, "function": c._function}, c.__name__, detail)
+        now = allmod.secs_streams_functions
+        if len(now) != len(snapshot) or any(x is not y for x, y in zip(now, snapshot)):
+            res.violate("c03-container-shared", "update() on a container changed the module-level catalogue list secs_streams_functions",
+                        case, [c.__name__ for c in snapshot][:3] + ["…", len(snapshot)], [getattr(c, "__name__", "?") for c in now][-3:] + [len(now)])
+        res.exhaustive_parts.append("container isolation: after update() on one container, all 134 (s, f) in three other default containers + the module-level list")
+    finally:
+        allmod.secs_streams_functions[:] = snapshot   # whatever happened, leave the catalogue as it was for what follows
+
     if a.replay:
         # verdict of a replay: only what the recorded run reported (its finding classes; its broken correspondence)
         classes = {v["class"] for v in rp.get("violations", [])}
